@@ -73,7 +73,8 @@ class ScriptConn(refdc.Conn):
             self.slog["actions"].append(("bind" if pt == rpc.BIND else "alter", act))
             # header-sign flag per ack: 0 = always set, 1 = never, 2 = clear in the first ack then set, 3 = set in the first ack then clear
             first = self.ack_no == 0
-            sflag = {0: True, 1: False, 2: not first, 3: first}[self.sign_pattern]
+            # 4 = the server mirrors the flag of the PDU it answers
+            sflag = {0: True, 1: False, 2: not first, 3: first, 4: bool(d["flags"] & rpc.PFC_SIGN)}[self.sign_pattern]
             flags = 3 | (rpc.PFC_SIGN if sflag else 0)
             right = rpc.BIND_ACK if pt == rpc.BIND else rpc.ALTER_CONTEXT_RESP
             wrong = rpc.ALTER_CONTEXT_RESP if pt == rpc.BIND else rpc.BIND_ACK
@@ -153,7 +154,7 @@ class ScriptDC(refdc.DC):
     def connect(self, host, port):
         if port == self.isd_port:
             if self.sign_flag is None:
-                self.sign_flag = self.ch.choose(4, "server-header-sign-pattern")
+                self.sign_flag = self.ch.choose(5, "server-header-sign-pattern")
                 self.slog["sign_pattern"] = self.sign_flag
             c = ScriptConn(self, self.ch, self.sign_flag, self.slog)
             self.conns.append(c)
@@ -303,6 +304,15 @@ def invariants(log: dict, prov) -> t.List[t.Tuple[str, dict]]:
         out.append(("I6.wrong-plaintext", {"returned": repr(val)}))
     if not bad and not name.endswith("emptyincomplete") and not any(a[0] == "ack" and (a[1] != VECTORS[0] or not a[2]) for _, a in acts if a[0] == "ack") and st != "ok":
         out.append(("liveness.default-script-failed", {"result": repr(val), "actions": repr(acts)}))
+    # I5b: a client that advertised header signing in its bind keeps advertising it in every alter_context for as long as every ack it has
+    # processed carried the flag too (withdrawing it half-way makes a server that mirrors the flag drop header signing although both sides offered it)
+    a_c_all = [bool(d["flags"] & rpc.PFC_SIGN) for d in pdus if d["ptype"] in (rpc.BIND, rpc.ALTER_CONTEXT)]
+    a_s_all = list(log.get("ack_sign_flags", []))
+    if a_c_all and a_c_all[0]:
+        for i_ in range(1, len(a_c_all)):
+            if all(a_s_all[:i_]) and len(a_s_all) >= i_ and not a_c_all[i_]:
+                out.append(("I5.header-signing-withdrawn-in-alter-context", {"client_pdu_flags": a_c_all, "server_ack_flags": a_s_all}))
+                break
     # I5
     if p.wraps:
         a_c = [bool(d["flags"] & rpc.PFC_SIGN) for d in pdus if d["ptype"] in (rpc.BIND, rpc.ALTER_CONTEXT)]
